@@ -24,7 +24,7 @@ CONSTANTS ValOrd,    \* validators in address (store) order, e.g. <<"v0","v1","v
           DenOrd,    \* all denoms in byte order (alliance assets and reward denoms)
           BondDenom, \* the staking denom
           \* which repairs of DESIGN.md section 7 the tree under test contains (the model describes the code as it is)
-          FixF1, FixF2, FixF4, FixF5, FixF6, FixF7, FixN1, FixN3, FixK11
+          FixF1, FixF2, FixF4, FixF5, FixF6, FixF6b, FixF7, FixN1, FixN3, FixK11
 
 Pos(sq, x) == IF \E i \in DOMAIN sq : sq[i] = x THEN CHOOSE i \in DOMAIN sq : sq[i] = x ELSE 0
 
@@ -380,7 +380,8 @@ SlashRedLoop(s, keys, f, CapAtPosition) ==
               ELSE
                 LET rc == ClaimDel(Ensure(s, dst), d, dst, a)
                 IN  IF ~rc.ok THEN Fail(rc.err, Ensure(s, dst))
-                    ELSE IF k \notin DOMAIN rc.s.dels \/ a \notin DOMAIN rc.s.assets THEN SlashRedLoop(rc.s, Tail(keys), f, CapAtPosition)
+                    ELSE IF k \notin DOMAIN rc.s.dels \/ a \notin DOMAIN rc.s.assets \/ (FixF6b /\ IsZero(rc.s.dels[k].shares))
+                         THEN SlashRedLoop(rc.s, Tail(keys), f, CapAtPosition)
                     ELSE
                       LET s1 == rc.s
                           asset == s1.assets[a]
@@ -394,8 +395,9 @@ SlashRedLoop(s, keys, f, CapAtPosition) ==
                                 ELSE IF ~vr.ok THEN Fail("insufficient delegation shares", s1)
                                 ELSE IF BLt(Get(info.dshares, a), vr.shares) THEN Fail("panic: negative coin amount", s1)
                                 ELSE
-                                  LET s2 == [s1 EXCEPT !.vals[dst].dshares = Put(@, a, BSub(Get(@, a), vr.shares)),
-                                                       !.dels[k].shares = BSub(@, vr.shares)]
+                                  LET left == BSub(del.shares, vr.shares)
+                                      s2 == [s1 EXCEPT !.vals[dst].dshares = Put(@, a, BSub(Get(@, a), vr.shares)),
+                                                       !.dels = IF FixF6b /\ IsZero(left) THEN DropKey(@, k) ELSE [@ EXCEPT ![k].shares = left]]
                                   IN  SlashRedLoop(s2, Tail(keys), f, CapAtPosition)
 
 \* slash every entry of a bucket (the code on the unrepaired tree), or only those of validator v and denom a
